@@ -85,10 +85,40 @@ WORDS = ['alpha', 'beta', 'gamma', 'com.apple.xpc', 'launchd', 'kernel', 'Safari
          'wifid', 'error %d', '%{public}s', 'café', '日本', 'x', '', 'default', 'state %lu']
 
 
+# what a string table may hold at the EDGES of a text: terminators a producer kept, blanks, control and invisible characters
+# - a text is what the index says, character for character (a binary plist carries all of them)
+TEXT_EDGES = ('\x00', '\x00\x00', ' ', '  ', '\t', '\x7f', '\u00a0', '\u200b', '\ufeff', '"', "'", '\\')
+# (line-breaking characters: only for checks that compare decoded fields, not printed lines - C16 switches them on)
+LINE_BREAK_EDGES = ('\n', '\r\n', '\x1f', '\u2028', '\x85')
+WITH_LINE_BREAKS = [False]
+
+
 def rand_text(rng):
-    if rng.random() < 0.7:
+    c = rng.random()
+    edges = TEXT_EDGES + LINE_BREAK_EDGES if WITH_LINE_BREAKS[0] else TEXT_EDGES
+    if c < 0.62:
         return rng.choice(WORDS) + str(rng.randrange(1000))
+    if c < 0.72:
+        return rng.choice(WORDS) + str(rng.randrange(1000)) + rng.choice(edges)
+    if c < 0.78:
+        return rng.choice(edges) + rng.choice(WORDS) + str(rng.randrange(1000))
+    if c < 0.8:
+        return rng.choice(edges)
     return rng.choice(WORDS)
+
+
+def dumps_index(obj, rng):
+    """A string-index section as a binary plist or - when every text survives that format (no NUL / control characters, no
+    CR) - sometimes as an XML one."""
+    import plistlib
+    if rng.random() < 0.5:
+        try:
+            data = plistlib.dumps(obj, fmt=plistlib.FMT_XML)
+            if plistlib.loads(data) == obj:
+                return data
+        except Exception:
+            pass
+    return plistlib.dumps(obj, fmt=plistlib.FMT_BINARY)
 
 
 def rand_int(rng):
